@@ -1,6 +1,6 @@
 """C04 - every raised exception becomes the response its most specific handler defines."""
 PROP = 'C04'
-LEAN_MODULES = ['FalconModel.ErrHandlers', 'FalconModel.ErrHandleProofs', 'FalconModel.ErrSerialize', 'FalconModel.ErrSerializeProofs']
+LEAN_MODULES = ['FalconModel.ErrHandlers', 'FalconModel.ErrHandleProofs', 'FalconModel.ErrSerialize', 'FalconModel.ErrSerializeProofs', 'FalconModel.ErrBody', 'FalconModel.ErrBodyProofs']
 DRIVERS = ['ehdriver', 'esdriver']
 THEOREMS = [
     # falcon/app.py add_error_handler + _find_error_handler (model Eh.register / Eh.lookup / Eh.find)
@@ -9,6 +9,10 @@ THEOREMS = [
     'Eh.body_reset_before_handler', 'Eh.handler_runs_on_clean_body', 'Eh.handler_raised_http_rendered', 'Eh.handler_raised_status_rendered',
     'Eh.escape_iff', 'Eh.default_exception_is_500_and_never_escapes', 'Eh.default_httperror_keeps_status',
     'Eh.draft_then_http_eq_http', 'Eh.draft_then_status_eq_status', 'Eh.draft_http_body_is_error', 'Eh.draft_status_body_is_status_text', 'Eh.draft_leaks_pinned_witness',
+    # falcon/app.py _get_body / falcon/asgi/app.py body selection after _handle_exception, with a stream attached before the raise (model Eb.handleS / Eb.sent)
+    'Eb.defined_body_is_sent', 'Eb.sent_independent_of_stale_stream', 'Eb.default_http_sends_error_body', 'Eb.default_exception_sends_error_body', 'Eb.default_status_sends_text',
+    'Eb.handler_raised_http_sends_error_body', 'Eb.handler_raised_status_sends_text', 'Eb.handler_set_body_is_sent', 'Eb.handler_stream_is_sent', 'Eb.stale_stream_sent_only_if_no_body',
+    'Eb.handleS_resp', 'Eb.handleS_some_iff', 'Eb.sent_no_stream', 'Eb.stream_first_witness', 'Eb.stale_sse_discarded', 'Eb.sse_pinned_witness',
     # falcon/app_helpers.py default_serialize_error (model Es.serializeChoice on top of Mt.bestMatch)
     'Es.serialize_json_on_tie', 'Es.negotiated_tie_is_json', 'Es.serialize_xml_only_if_preferred_and_enabled', 'Es.serialize_xml_type',
     'Es.serialize_never_form_types', 'Es.serialize_ctype_negotiated', 'Es.serialize_none_iff', 'Es.serialize_none_accepts_nothing',
@@ -29,6 +33,15 @@ STATEMENTS = {
     'Eh.handler_raised_http_rendered': 'if the chosen handler raises an HTTPError, the response is that error\'s status and its serialized body',
     'Eh.handler_raised_status_rendered': 'if the chosen handler raises an HTTPStatus, the response is that status and text',
     'Eh.draft_http_body_is_error': 'if the chosen handler assigns text/data/media and THEN raises an HTTPError, the body sent is the serialized error, never the draft (fix 07d5278; Eh.draft_leaks_pinned_witness: the pinned code sent the draft)',
+    'Eb.sent_independent_of_stale_stream': 'if the response produced by _handle_exception has a rendered body (text, data or media), the body SENT (rendered body first, resp.stream only otherwise) is the same whatever stream, text, data or media the response carried before the raise',
+    'Eb.default_http_sends_error_body': 'default HTTPError handler: the serialized error is what is sent, whatever stream was attached before the raise (same for the default 500 and, with its text, HTTPStatus)',
+    'Eb.handler_raised_http_sends_error_body': 'an HTTPError raised by the chosen handler, after assigning anything, is sent as the serialized error even when a stream is attached',
+    'Eb.handler_set_body_is_sent': 'a handler that assigns text / data / media: that (text before data before media) is sent, never the stream attached before the raise',
+    'Eb.handler_stream_is_sent': 'a handler that attaches its own stream and no text / data / media: its stream is sent',
+    'Eb.stale_stream_sent_only_if_no_body': 'the stream attached before the raise is sent only if the resulting response has no text / data / media at all and the handler left resp.stream alone',
+    'Eb.stale_sse_discarded': 'after _handle_exception no server-sent events emitter is pending (ASGI, fix 4582e3b): what is sent is the rendered body, else the stream - never the events of an emitter set before the raise '
+                              '(Eb.sse_pinned_witness: before the fix the events were sent in place of the serialized error)',
+    'Eb.stream_first_witness': 'witness: with the stream consulted first (seeded change C04_11) an HTTPError raised after a stream was attached is answered with the stream; with the real order with the serialized error',
     'Eh.escape_iff': 'an exception leaves _handle_exception iff no class of the MRO is registered or the chosen handler raises something other than HTTPError/HTTPStatus',
     'Eh.default_exception_is_500_and_never_escapes': 'with the three default registrations in the history and no later registration for a class of the MRO, an Exception-derived (non-HTTPError, non-HTTPStatus) error is handled (never escapes) and yields status 500',
     'Eh.default_httperror_keeps_status': 'with the default registrations and no later registration for a class of the MRO, an HTTPError-derived error yields its own status and serialized body',
@@ -65,11 +78,31 @@ ASSUMPTIONS = [
     'when the client prefers XML they are additionally XML-1.0 characters without carriage return (other characters are not representable in XML 1.0 at all)',
     'header values of HTTPError/HTTPStatus are ASCII and header names are not repeated (set_headers semantics; header well-formedness is C05)',
     'an error handler that itself raises something other than HTTPError/HTTPStatus is outside the statement: the oracle accepts both "propagates to the server" and "500"',
-    'the Accept header is ASCII and its q values have at most four decimals and no exponent (the fragment of the negotiation model; the oracles do not need this)',
+    'the Accept header is ASCII and its q values have at most four decimals and no exponent (the fragment of the negotiation MODEL only; the oracles also judge headers with obs-text octets 0x80-0xFF: '
+    'never escapes, status, headers, Vary, faithful body; which type is chosen is judged when the octets sit in members that cannot change what the client accepts)',
+    'a stream (resp.stream / set_stream) attached before the raise is not among the things the statement says are discarded (text, data, media): a body the handler / the default rendering defines must be '
+    'sent, never the stale stream (judged); when the handler defines NO body at all (custom handler setting nothing, HTTPStatus without text, HTTPError / 500 when the client accepts nothing that can be '
+    'produced) what is sent is not fixed by the statement - both stacks send the stream that is still attached; these cases are generated, counted (*_stale_stream_sent_*_(not_judged)) and covered by the '
+    'correspondence with Eb.handleS, but not judged by the oracle (coordinator decision)',
+    'a server-sent events emitter (resp.sse, ASGI) set BEFORE the raise is judged strictly: it never shows in the error response (repaired in /repo 4582e3b, found by this dimension); error handlers that '
+    'assign resp.sse themselves and then raise are not generated (reported: the events still replace the raised HTTPError / HTTPStatus)',
     'media handler objects are truthy and none is registered under the literal key "*/*" (needed only by Es.serialize_xml_type and the second half of Es.serialize_typeOnly_only)',
     'Accept headers come from a well-formed grammar of up to 3 media ranges with q in {absent, 0, 0.1, 0.5, 0.9, 1}, in any letter case (see above)',
 ]
-RULE = ('[two dimensions added after seeds C04_8 / C04_9: (i) the raised exception OBJECT is an input in parts (a), (b), (c): with probability 0.2-0.75 per case its class is built by '
+RULE = ('[three dimensions added after seeds C04_10 / C04_11 / C04_12 - the state of the RESPONSE before the raise and the OCTETS of the request headers: '
+        '(i) a Vary value that looks like the one the serializer manages, in parts (c) and (d): 22 member lists (Accept-Encoding / -Language / -Charset / -CH / -Datetime, X-Accept-Version, '
+        'Not-Acceptable, Acceptx, xAccept, other case, Accept itself in three cases, lists mixing them with Origin / Cookie) put on the response by a process_request middleware, by the code at the raise '
+        'site right before raising, or carried by the raised HTTPError / HTTPStatus itself, through set_header / resp.vary / append_header; raise site `noroute` (the framework\'s own 404 behind a '
+        'middleware) added; the oracle parses Vary as a comma list: Accept must be a MEMBER and every member listed before must still be one; '
+        '(ii) a STREAM attached before the raise (resp.stream = obj / resp.set_stream(obj, n); iterable, generator, file-like, falsy iterable; alone or next to text / data / media) at every raise site '
+        'of parts (a), (b), (c), both stacks, plus handlers that attach / clear a stream themselves: the body sent must be the one the handler / the default rendering defines, never the stale stream '
+        '(new model Eb.handleS / Eb.sent in the correspondence of (b): ehdriver op `handles`); on ASGI also a server-sent events emitter (resp.sse = emitter()) set before the raise, alone or next to a '
+        'stream / text / data / media, parts (a), (b), (c): it takes precedence over every body, so it must never show in the error response - this found that the ASGI _handle_exception did not discard '
+        'it (every error response consisted of the events), repaired in /repo 4582e3b; '
+        '(iii) header octets: Accept headers with obs-text (latin-1 text, well-formed and ill-formed UTF-8, NBSP / NEL, 0xFF) in unknown members and parameters (type choice still judged), or as stray '
+        'octets anywhere / inside q values / as the whole value (never escapes, status, headers, Vary, faithful body judged), and such octets in up to 3 other request headers (User-Agent, Content-Type, '
+        'Cookie, Accept-Language ...), WSGI (native latin-1 strings) and ASGI (bytes), parts (c) and (d)] '
+        '[two dimensions added after seeds C04_8 / C04_9: (i) the raised exception OBJECT is an input in parts (a), (b), (c): with probability 0.2-0.75 per case its class is built by '
         'lib_hostileexc.build with one of 33 hostile behaviours (dunder methods that raise or return the wrong type, falsy objects, hostile __notes__, metaclasses whose __name__ / __qualname__ / '
         '__module__ / __repr__ / __eq__ / __getattr__ misbehave) and/or it is raised by lib_hostileexc.throw in one of 16 unusual ways (hostile / cyclic cause and context, 1200-long chain, traceback '
         'manipulations, re-raised instance, `raise Cls`, ExceptionGroup, generator, released frame); HTTPError / HTTPStatus subclasses and the errors a handler raises get the same treatment; every '
@@ -94,7 +127,8 @@ RULE = ('[two dimensions added after seeds C04_8 / C04_9: (i) the raised excepti
 PARTIAL = ('Proved in Lean: handler resolution (nearest class in the MRO, latest registration per class); the _handle_exception step (body reset, handler-raised HTTPError/HTTPStatus '
            'rendered in turn, escape iff unhandled or the handler raises something else, defaults => 500 / own status); the content negotiation of default_serialize_error on top of the proved '
            'model of mediatypes.best_match (JSON wins every tie, XML only if preferred and enabled, form types never, nothing iff nothing accepted and no +json/+xml suffix, Vary: Accept always '
-           'appended); the field set of HTTPError.to_dict; status and headers kept by _compose_error_response / _compose_status_response. NOT proved: that every raise window of App.__call__ is '
+           'appended); the field set of HTTPError.to_dict; status and headers kept by _compose_error_response / _compose_status_response; the body sent when a stream was attached before the raise (rendered body before stream: a body the handler '
+           'defines is sent whatever the stale stream, and an emitter set before the raise discarded, Eb.stale_sse_discarded). NOT proved: error handlers that assign resp.sse themselves are not in the Eb model; that every raise window of App.__call__ is '
            'wrapped (checked by the raise-site generator + oracle, and by C03\'s pipeline correspondence); the faithfulness of the JSON/XML/media-handler encoders and of uri.encode for the link '
            '(checked by parsing the emitted body with the standard library and comparing every field); Response header emission after composition (C05); the negotiation model is restricted to '
            'ASCII Accept headers with q values of at most four decimals (other inputs answer "unsupported").')
@@ -119,15 +153,99 @@ def run(ctx):
 
 # ------------------------------------------------------------------ helpers shared by the three parts
 
-def _call(app, stack, via_testing=False, headers=None):
+def _call(app, stack, via_testing=False, headers=None, path='/'):
     from lib_appcall import call_wsgi, call_asgi, call_via_testing
     if via_testing:
-        return call_via_testing(app, headers=headers)
-    return (call_asgi if stack == 'asgi' else call_wsgi)(app, headers=headers)
+        return call_via_testing(app, headers=headers, path=path)
+    return (call_asgi if stack == 'asgi' else call_wsgi)(app, headers=headers, path=path)
+
+
+def _members(values):
+    """the members of a comma-separated list header given as one or more field values (RFC 9110 5.6.1), lower-cased"""
+    return [x.strip().lower() for v in values for x in v.split(',') if x.strip()]
 
 
 def _vary_has_accept(r):
-    return 'accept' in [x.strip().lower() for v in r.header('vary') for x in v.split(',')]
+    """`Accept` is one of the field names LISTED in Vary - a member of the list, not a substring of the field value"""
+    return 'accept' in _members(r.header('vary'))
+
+
+# Vary values a response may already carry when an error is rendered: every relative of `Accept` (a prefix / substring / other case of
+# the name), Accept itself, lists, and unrelated names.  (first element: the members, second: how many of them contain "accept")
+VARY_POOL = [['Accept-Encoding'], ['Accept-Language'], ['Accept-Charset'], ['Accept-CH'], ['Accept-Datetime'], ['X-Accept-Version'], ['Not-Acceptable'],
+             ['accept-encoding'], ['ACCEPT-LANGUAGE'], ['Accept'], ['accept'], ['ACCEPT'], ['Accept-Encoding', 'Accept-Language'],
+             ['Origin', 'Accept-Encoding'], ['Accept-Language', 'Cookie'], ['Accept-Encoding', 'Accept'], ['Accept', 'Origin'], ['Origin'], ['Cookie', 'User-Agent'],
+             ['Acceptx'], ['xAccept'], ['Accept-Encoding', 'Origin', 'X-Accept-Version']]
+
+STALE_STREAM = b'PRESET-stream-' + b'0123456789' * 3
+
+
+def _mk_stream(asgi, kind, payload):
+    """a fresh response stream object of the given kind for the stack: iterable / generator / file-like (read) / an iterable that is falsy"""
+    import io
+    chunks = [payload[:7], payload[7:]] if len(payload) > 7 else [payload]
+    if not asgi:
+        if kind == 'file':
+            return io.BytesIO(payload)
+        if kind == 'gen':
+            return (c for c in chunks)
+        if kind == 'falsy_iter':
+            class FalsyIter:
+                def __len__(self): return 0
+                def __iter__(self): return iter(chunks)
+            return FalsyIter()
+        return list(chunks)
+
+    class AIter:
+        def __init__(self): self.c = list(chunks)
+        def __aiter__(self): return self
+        async def __anext__(self):
+            if not self.c:
+                raise StopAsyncIteration
+            return self.c.pop(0)
+    if kind == 'file':
+        class AFile:
+            def __init__(self): self.b = io.BytesIO(payload)
+            async def read(self, n=-1): return self.b.read(n)
+            async def close(self): pass
+        return AFile()
+    if kind == 'gen':
+        async def agen():
+            for c in chunks:
+                yield c
+        return agen()
+    if kind == 'falsy_iter':
+        class AFalsy(AIter):
+            def __len__(self): return 0
+        return AFalsy()
+    return AIter()
+
+
+STREAM_KINDS = ['iter', 'gen', 'file', 'falsy_iter']
+STALE_SSE = b'PRESET-sse-event'
+
+
+def _attach_sse(resp):
+    """`resp.sse = emitter()` (ASGI): server-sent events take precedence over every other body"""
+    import falcon.asgi
+
+    async def emitter():
+        yield falcon.asgi.SSEvent(data=STALE_SSE)
+        yield falcon.asgi.SSEvent(data=STALE_SSE, event='second')
+    resp.sse = emitter()
+
+
+def _is_stale_sse(body):
+    return body.startswith(b'data: PRESET-sse') or b'PRESET-sse-event' in body
+
+
+def _attach_stream(resp, asgi, kind, how, payload):
+    """`resp.stream = obj` or `resp.set_stream(obj, length)` (which also sets Content-Length)"""
+    obj = _mk_stream(asgi, kind, payload)
+    if how == 'set_stream':
+        resp.set_stream(obj, len(payload))
+    else:
+        resp.stream = obj
 
 
 def _json_or_none(b):
@@ -325,6 +443,7 @@ def _resolution(ctx):
         status = [falcon.HTTPStatus]
         gen = []
         static_ids = {}
+        static_sets = {}
         behaviours = {}
         for i in range(rnd.randint(1, 6)):
             fam = rnd.choice(['plain', 'plain', 'http', 'http', 'status', 'mixed'])
@@ -333,7 +452,8 @@ def _resolution(ctx):
             ns = {}
             if rnd.random() < 0.3:
                 hid = 500 + i
-                ns['handle'] = staticmethod(mkhandler(hid, rnd.random() < 0.7))
+                static_sets[hid] = rnd.random() < 0.7
+                ns['handle'] = staticmethod(mkhandler(hid, static_sets[hid]))
             # what the OBJECTS of the class do when looked at (str / repr / ==, hash, truth, attribute reads, a metaclass ...): inherited by subclasses
             ckind = _pick_hostile(rnd, 0.22, throw_ok=lambda k: False)[0]
             try:
@@ -373,8 +493,19 @@ def _resolution(ctx):
         inherited = [behaviours[_nm(b)] for b in exc_cls.__mro__ if any(b is g for g in classes) and _nm(b) in behaviours]
         hostile = bool(inherited) or tkind != 'plain'
 
+        # a STREAM attached to the response before the raise (resp.stream = ... / resp.set_stream(...)), with or without text / media
+        stale_stream = (rnd.choice(STREAM_KINDS), rnd.choice(['stream', 'set_stream'])) if rnd.random() < 0.15 else None
+        # ... or a server-sent events emitter (ASGI): it takes precedence over every other body, so it must be discarded like them
+        stale_sse = asgi and rnd.random() < 0.1
+
         def preset(resp):
+            if stale_sse:
+                _attach_sse(resp)
+            if stale_stream:
+                _attach_stream(resp, asgi, stale_stream[0], stale_stream[1], STALE_STREAM)
             if site == 'render':
+                return
+            if stale_stream and rnd.random() < 0.4:
                 return
             resp.text = 'PRESET'
             if rnd.random() < 0.5:
@@ -385,6 +516,10 @@ def _resolution(ctx):
                 resp.media = {'PRESET': 1}
                 resp.content_type = 'application/x-raise'
                 return
+            if stale_stream:
+                _attach_stream(resp, asgi, stale_stream[0], stale_stream[1], STALE_STREAM)
+            if stale_sse:
+                _attach_sse(resp)
             if rnd.random() < 0.5:
                 resp.data = b'PRESET'
             X.throw(tkind, make)
@@ -442,11 +577,12 @@ def _resolution(ctx):
             got = 'none'
         else:
             j = _json_or_none(r.body)
-            if r.status == 500 and isinstance(j, dict) and j.get('title') == '500 Internal Server Error':
+            streamed = (stale_stream is not None and r.body == STALE_STREAM) or (stale_sse and _is_stale_sse(r.body))     # (judged below; the status still tells which default handler ran)
+            if r.status == 500 and (streamed or isinstance(j, dict) and j.get('title') == '500 Internal Server Error'):
                 got = D_EXC
-            elif r.status == 418 and isinstance(j, dict) and 'title' in j:
+            elif r.status == 418 and (streamed or isinstance(j, dict) and 'title' in j):
                 got = D_HTTP
-            elif r.status == 299 and r.body == b'st':
+            elif r.status == 299 and (streamed or r.body == b'st'):
                 got = D_STATUS
             else:
                 got = f'unknown:{r.status}'
@@ -455,21 +591,30 @@ def _resolution(ctx):
             what = f'exception escaped to the server: {r.escaped!r} (handler {exp} is registered for the nearest class of the MRO; ran: {got})'
         elif got != exp:
             what = f'handler {got} ran, expected {exp}'
-        elif b'PRESET' in r.body:
-            what = f'body set before the raise was sent: {r.body[:60]!r}'
-        elif isinstance(exp, int) and exp < 9000:
+        else:
             sets = None
-            for reg in regs:
-                if reg[2] == exp and reg[0] != 'static':
-                    sets = reg[3]
-            if sets is True and r.body != f'h{exp}'.encode():
+            if isinstance(exp, int) and exp < 9000:
+                for reg in regs:
+                    if reg[2] == exp and reg[0] != 'static':
+                        sets = reg[3]
+                if sets is None and stale_stream:
+                    sets = static_sets.get(exp)
+            if stale_stream and sets is False and r.body == STALE_STREAM:
+                # the handler defines no body at all and did not touch resp.stream: what is sent then is not fixed by the statement
+                # (it lists text, data and media as discarded); both stacks send the stream - recorded, not judged
+                ctx.count('a_stale_stream_sent_handler_defines_no_body_(not_judged)')
+            elif b'PRESET' in r.body:
+                what = f'content set before the raise was sent: {r.body[:60]!r}' + (' (the stream attached before the raise)' if r.body == STALE_STREAM else
+                                                                                     ' (the server-sent events emitter set before the raise)' if _is_stale_sse(r.body) else '')
+            elif sets is True and r.body != f'h{exp}'.encode():
                 what = f'custom handler set text h{exp} but the body sent is {r.body[:60]!r}'
             elif sets is False and r.body != b'':
                 what = f'custom handler set no body but {r.body[:60]!r} was sent'
         case = {'stack': stack, 'site': site, 'raised': _nm(exc_cls), 'mro': [_nm(c) for c in mro],
                 'classes': {_nm(c): [_nm(b) for b in c.__bases__] for c in classes},
                 'object_behaviour_by_class (lib_hostileexc)': behaviours, 'raised_how (lib_hostileexc.throw)': tkind,
-                'registrations_after_defaults': regs, 'registrations_before_first_request': n1 if warmed else None, 'via_testing': ci % 16 == 0}
+                'registrations_after_defaults': regs, 'registrations_before_first_request': n1 if warmed else None, 'via_testing': ci % 16 == 0,
+                'stream_attached_before_the_raise (kind, api)': stale_stream, 'sse_emitter_set_before_the_raise': stale_sse}
         ctx.oracle(name, what is None, what, case)
         sess.case(case)
         sess.op('new', 'ok')
@@ -478,6 +623,10 @@ def _resolution(ctx):
         sess.op('find ' + ','.join(str(cid(c)) for c in mro), str(got))
         ctx.seen(('a', stack, site, str(case['classes']), str(regs), _nm(exc_cls), str(behaviours), tkind), True)
         ctx.count('a_site_' + site)
+        if stale_stream:
+            ctx.count('a_stale_stream_' + stack)
+        if stale_sse:
+            ctx.count('a_stale_sse_emitter')
         for hk in set(inherited):
             ctx.count('a_object_' + hk)
         ctx.count('a_raised_how_' + tkind)
@@ -499,7 +648,8 @@ def _sites(ctx):
     name = 'raise sites: body set before the raise is discarded; the response is what the handler defines; handler-raised HTTPError/HTTPStatus is rendered; default 500 never escapes; body of a render-time error is sent'
     sites = SITES + ['render415']
     outcomes = ['set_text', 'set_data', 'set_media', 'nothing', 'raise_http', 'raise_status', 'raise_plain',
-                'draft_raise_http', 'draft_raise_status', 'draft_raise_status_notext']
+                'draft_raise_http', 'draft_raise_status', 'draft_raise_status_notext', 'set_stream', 'clear_stream']
+    HANDLER_STREAM = b'HANDLER-stream-' + b'abcdefghij' * 2
     combos = [(st, site, exc, out) for st in ('wsgi', 'asgi') for site in sites for exc in ('http', 'status', 'plain', 'custom')
               for out in (outcomes if exc == 'custom' else [None])]
     i, k = ctx.shard
@@ -509,7 +659,11 @@ def _sites(ctx):
         todo.append(rnd.choice(combos))
     for ci, (stack, site, exc, out) in enumerate(todo):
         asgi = stack == 'asgi'
-        presets = [p for p in ('text', 'data', 'media') if rnd.random() < 0.6] or ['text']
+        # the response state before the raise: text / data / media and / or a STREAM (resp.stream = ... / resp.set_stream(obj, length); an
+        # iterable, a generator, a file-like object, a falsy iterable), at every raise site, on both stacks
+        pstream = (rnd.choice(STREAM_KINDS), rnd.choice(['stream', 'set_stream'])) if rnd.random() < (0.4 if out not in ('set_stream', 'clear_stream') else 0.7) else None
+        psse = asgi and site != 'render415' and rnd.random() < 0.2
+        presets = [p for p in ('text', 'data', 'media') if rnd.random() < 0.6] or ([] if pstream and rnd.random() < 0.6 else ['text'])
         if site in ('render', 'render415'):
             presets = ['media']
         primed = site not in ('render', 'render415') and rnd.random() < 0.4
@@ -543,15 +697,23 @@ def _sites(ctx):
             return AppErr('custom')
 
         def preset(resp):
+            if pstream:
+                _attach_stream(resp, asgi, pstream[0], pstream[1], STALE_STREAM)
+            if psse:
+                _attach_sse(resp)
             if site in ('render', 'render415'):
                 return
             if 'text' in presets: resp.text = 'PRESET-text'
             if 'data' in presets: resp.data = b'PRESET-data'
             if 'media' in presets: resp.media = {'PRESET': 'media'}
-            if primed:                       # an earlier phase already rendered the body once (render cache filled)
+            if primed and presets:           # an earlier phase already rendered the body once (render cache filled)
                 _render_now(resp)
 
         def raiser(resp):
+            if site in ('render', 'render415') and pstream:
+                _attach_stream(resp, asgi, pstream[0], pstream[1], STALE_STREAM)
+            if site in ('render', 'render415') and psse:
+                _attach_sse(resp)
             if site == 'render':
                 resp.media = {'PRESET': 'media'}
                 resp.content_type = 'application/x-raise'
@@ -584,6 +746,8 @@ def _sites(ctx):
                 if out == 'draft_raise_status': raise Status(298, headers={'X-St': 's2'}, text='handler-status-text')
                 raise Status(297, headers={'X-St': 's3'})
             elif out == 'raise_plain': raise KeyError('raised inside the handler')
+            elif out == 'set_stream': _attach_stream(resp, asgi, rnd.choice(STREAM_KINDS), rnd.choice(['stream', 'set_stream']), HANDLER_STREAM)
+            elif out == 'clear_stream': resp.stream = None
         if asgi:
             async def h(req, resp, ex, params): hbody(resp)
         else:
@@ -604,13 +768,20 @@ def _sites(ctx):
         j = _json_or_none(r.body)
         what = None
 
+        stale_open = bool(pstream) and out in ('nothing', 'draft_raise_status_notext')
+
         def expect(status, body=None, jtitle=None, hdr=None, vary=False):
             if r.escaped is not None:
                 return f'exception escaped to the server: {r.escaped!r}'
             if r.status != status:
                 return f'status {r.status}, expected {status}'
-            if body is not None and r.body != body:
-                return f'body {r.body[:80]!r}, expected {body!r}' + (' (the handler\'s body was discarded)' if r.body == b'' else '')
+            if body == b'' and stale_open and r.body == STALE_STREAM:
+                # the handler defines no body at all and did not touch resp.stream: what is sent then is not fixed by the statement (it
+                # lists text, data and media as discarded); both stacks send the stream - recorded, not judged
+                ctx.count('b_stale_stream_sent_handler_defines_no_body_(not_judged)')
+            elif body is not None and r.body != body:
+                return f'body {r.body[:80]!r}, expected {body!r}' + (' (the handler\'s body was discarded)' if r.body == b'' else '') + (
+                    ' (the stream attached before the raise)' if r.body == STALE_STREAM else '')
             if jtitle is not None and not (isinstance(j, dict) and j.get('title') == jtitle):
                 return f'body {r.body[:80]!r} is not the JSON rendering of the error titled {jtitle!r}' + (' (the handler\'s body was discarded)' if r.body == b'' else '')
             if hdr and r.header(hdr[0]) != [hdr[1]]:
@@ -639,14 +810,19 @@ def _sites(ctx):
             elif out == 'draft_raise_http': what = expect(410, jtitle='T-gone', hdr=('x-err', 'e2'), vary=True)
             elif out == 'draft_raise_status': what = expect(298, body=b'handler-status-text', hdr=('x-st', 's2'))
             elif out == 'draft_raise_status_notext': what = expect(297, body=b'', hdr=('x-st', 's3'))
+            elif out == 'set_stream': what = expect(233, body=HANDLER_STREAM)
+            elif out == 'clear_stream': what = expect(233, body=b'')
             elif out == 'raise_plain':
                 if r.escaped is None and r.status != 500:
                     what = f'handler raised a plain exception: neither propagated nor 500 (status {r.status})'
-        if what is None and b'PRESET' in r.body:
-            what = f'content set before the raise was sent: {r.body[:80]!r}'
+        if what is None and b'PRESET' in r.body and not (stale_open and r.body == STALE_STREAM):
+            what = f'content set before the raise was sent: {r.body[:80]!r}' + (' (the stream attached before the raise)' if r.body == STALE_STREAM else '')
+        if psse and r.escaped is None and _is_stale_sse(r.body):
+            what = f'the server-sent events emitter set before the raise was used for the response instead of what the handler defines: status {r.status}, body {r.body[:80]!r}'
         if what is None and b'DRAFT' in r.body:
             what = f'content the handler set before raising was sent instead of the raised error/status: {r.body[:80]!r}'
         case = {'stack': stack, 'site': site, 'raised': raised, 'handler_outcome': out, 'preset': presets, 'preset_rendered_once': primed, 'via_testing': ci % 16 == 5,
+                'stream_attached_before_the_raise (kind, api)': pstream, 'sse_emitter_set_before_the_raise': psse,
                 'object_behaviour (lib_hostileexc.build)': ckind, 'raised_how (lib_hostileexc.throw)': tkind}
         if out and out.startswith('draft_'):
             case['handler_drafts'] = drafts
@@ -660,7 +836,7 @@ def _sites(ctx):
         sess.op(f'reg 4 {D_EXC}', 'ok'); sess.op(f'reg 2 {D_HTTP}', 'ok'); sess.op(f'reg 3 {D_STATUS}', 'ok')
         if raised == 'custom':
             sess.op('reg 1 7', 'ok')
-            beh = {'set_text': 'sets:233:1', 'set_data': 'sets:233:2', 'set_media': 'sets:233:3', 'nothing': 'sets:233:0',
+            beh = {'set_text': 'sets:233:1', 'set_data': 'sets:233:2', 'set_media': 'sets:233:3', 'nothing': 'sets:233:0', 'set_stream': 'sets:233:0', 'clear_stream': 'sets:233:0',
                    'raise_http': 'http:410', 'raise_status': 'status:298', 'raise_plain': 'other',
                    'draft_raise_http': 'drafthttp:410:' + ''.join(p[0] for p in drafts), 'draft_raise_status': 'draftstatus:298:' + ''.join(p[0] for p in drafts),
                    'draft_raise_status_notext': 'draftstatus:297:' + ''.join(p[0] for p in drafts)}[out]
@@ -670,7 +846,12 @@ def _sites(ctx):
             obs = 'escape'
         else:
             # body source: 0 none, 1 text, 2 data, 3 media (handler), 4 serialized error, 5 status text, 9 preset leaked
-            if b'PRESET' in r.body: src = 9
+            # 6 the stream attached before the raise, 7 the stream attached by the handler
+            # 8 the server-sent events of the emitter set before the raise
+            if r.body == STALE_STREAM: src = 6
+            elif r.body == HANDLER_STREAM: src = 7
+            elif _is_stale_sse(r.body): src = 8
+            elif b'PRESET' in r.body: src = 9
             elif r.body == b'DRAFT-text': src = 1
             elif r.body == b'DRAFT-data': src = 2
             elif j == {'DRAFT': 'media'}: src = 3
@@ -683,9 +864,19 @@ def _sites(ctx):
             else: src = 8
             obs = f'status={r.status} body={src}'
         if out != 'draft_raise_status_notext':       # (Eh.composeStatus always carries a text; the text-less HTTPStatus is judged by the oracle only)
-            sess.op(f'handle {mro} {st_raised} {pre}', obs)
-        ctx.seen(('b', stack, site, raised, out, tuple(presets), ckind, tkind), True)
+            if pstream or psse or out in ('set_stream', 'clear_stream'):
+                # Eb.handleS + Eb.sent: _handle_exception leaves resp.stream alone, the rendered body is sent before any stream
+                act = {'set_stream': 's', 'clear_stream': 'c'}.get(out, 'k')
+                sess.op(f'handles {mro} {st_raised} {pre.replace("-", "") + ("s" if pstream else "") + ("e" if psse else "") or "-"} {act}', obs)
+            else:
+                sess.op(f'handle {mro} {st_raised} {pre}', obs)
+        ctx.seen(('b', stack, site, raised, out, tuple(presets), ckind, tkind, pstream, psse), True)
         ctx.count('b_site_' + site)
+        if pstream:
+            ctx.count(f'b_stale_stream_{stack}_{pstream[0]}_{pstream[1]}' + ('' if presets else '_alone'))
+            ctx.count('b_stale_stream_site_' + site)
+        if psse:
+            ctx.count('b_stale_sse_site_' + site + ('_with_stream' if pstream else ''))
         ctx.count('b_object_' + ckind)
         ctx.count('b_raised_how_' + tkind)
         if hostile:
@@ -697,6 +888,14 @@ def _sites(ctx):
 # ------------------------------------------------------------------ (c) default rendering of HTTPError / HTTPStatus / other exceptions
 
 JSON, XML_T, XML_A = 'application/json', 'text/xml', 'application/xml'
+# members of an Accept header that carry obs-text octets (as the latin-1 decoded native string) without changing what the client accepts:
+# unknown types and parameters of types falcon never offers
+NONASCII_MEMBERS = ['text/html;profile="caf\xe9"', 'text/html;x=\xc3\xa9', 'text/x-caf\xe9', 'application/vnd.\xe9+json', 'application/vnd.\xff+xml', 'image/\xff',
+                    '\xe9/\xff', 'text/x-\x80;q=0.5', 'image/png;title="\xfe\xff"', 'application/x-\xb5;q=0.3', 'image/x-\xc3\x28', 'text/x-\xa0y', 'x-\x85/y;q=0.9']
+# ... and members whose reading is not defined (octets inside a q value / appended to a known type): judged leniently
+NONASCII_LENIENT = ['application/json;q=\xb9', 'application/xml;q=0.\xb2', '*/*;q=\xbd', 'application/json\xe9', 'application/xml;q=0.5\xe9', '\xe9', '*/*\xff',
+                    'text/xml;q=\xb3', 'application/\xe9son', '\xa0', 'application/json;q=1\xa0']
+OCTETS = [0x80, 0x85, 0xa0, 0xad, 0xb2, 0xb9, 0xbd, 0xc3, 0xa9, 0xe9, 0xfe, 0xff, 0xc0, 0xdf, 0xb5]
 FORM, MULTI, YAML = 'application/x-www-form-urlencoded', 'multipart/form-data', 'application/x-yamlish'
 
 
@@ -811,7 +1010,9 @@ def _serialization(ctx):
         stack = rnd.choice(['wsgi', 'asgi'])
         asgi = stack == 'asgi'
         kind = rnd.choice(['http'] * 6 + ['status', 'status', 'plain'])
-        site = rnd.choice(['responder', 'responder', 'req', 'rsrc', 'resp', 'before', 'after', 'sink'])
+        site = rnd.choice(['responder', 'responder', 'req', 'rsrc', 'resp', 'before', 'after', 'sink', 'noroute'])
+        if site == 'noroute':
+            kind = 'http'                  # the 404 the framework itself raises for a path without a route (middleware still runs)
         xml_on = rnd.random() < 0.7
         yaml_on = rnd.random() < 0.3
         # further configured response handlers: one keyed application/xml (predefined when XML is on), one with a +json suffix;
@@ -849,6 +1050,36 @@ def _serialization(ctx):
             ctx.count('c_accept_case_' + ('as_is' if accept == accept.lower() else 'other_case'))
             if any('+' in p and p.split(';')[0] != p.split(';')[0].lower() for p in parts):
                 ctx.count('c_accept_suffix_type_in_other_case')
+        # header OCTETS: a field value is a sequence of octets; obs-text (0x80-0xFF) reaches the app as a latin-1 decoded native string on
+        # WSGI and as bytes on ASGI.  (i) extra members that are unknown types / carry a parameter with such octets (latin-1 text, well-formed
+        # UTF-8, ill-formed UTF-8, NBSP, 0xFF ...): they do not change what the client accepts, so the evaluator below still decides the body;
+        # (ii) stray octets anywhere in the value / in a q value: only "never escapes", status, headers, Vary and faithfulness are judged
+        octets = None
+        if accept is not None and rnd.random() < 0.2:
+            octets = rnd.choice(['member', 'member', 'stray'])
+            if octets == 'member':
+                for _ in range(rnd.randint(1, 2)):
+                    parts.insert(rnd.randint(0, len(parts)), rnd.choice(NONASCII_MEMBERS))
+                accept = rnd.choice([', ', ',']).join(parts)
+            else:
+                r_ = rnd.random()
+                if r_ < 0.5:
+                    pos = rnd.randint(0, len(accept))
+                    accept = accept[:pos] + ''.join(chr(rnd.choice(OCTETS)) for _ in range(rnd.randint(1, 3))) + accept[pos:]
+                elif r_ < 0.8:
+                    parts.insert(rnd.randint(0, len(parts)), rnd.choice(NONASCII_LENIENT))
+                    accept = ', '.join(parts)
+                else:
+                    accept = ''.join(chr(rnd.choice(OCTETS)) for _ in range(rnd.randint(1, 6)))
+                accept = accept.strip(' \t') or '\xe9'          # (servers strip optional whitespace around the field value)
+            ctx.count('c_accept_octets_' + octets + '_' + stack)
+        other_hdrs = {}
+        if rnd.random() < 0.12:
+            for hn_ in rnd.sample(['User-Agent', 'Content-Type', 'Cookie', 'X-Forwarded-For', 'Referer', 'Accept-Language', 'Accept-Encoding', 'Accept-Charset',
+                                   'X-Request-Id', 'Forwarded', 'Authorization', 'If-None-Match'], rnd.randint(1, 3)):
+                other_hdrs[hn_] = rnd.choice(['caf\xe9', '\xff', 'a=\xe9; b="\xc3\xa9"', 'text/\xb5; charset=\xfe', '\x80\x81', 'de-\xe0, en;q=0.\xb2'])
+            ctx.count('c_other_request_headers_with_octets_' + stack)
+        lenient = octets == 'stray'
         qs = {mt: _quality(mt, ranges) for mt in offered}
         top = max(qs.values())
         best = [mt for mt in offered if qs[mt] == top and top > 0]
@@ -861,7 +1092,7 @@ def _serialization(ctx):
             allowed = [XML_A] if (xml_on or XML_A in extra) else [None]
         else:
             allowed = [None]                         # the client accepts nothing falcon can produce: status and headers only
-        xml_possible = any(a in (XML_A, XML_T) for a in allowed)
+        xml_possible = any(a in (XML_A, XML_T) for a in allowed) or (lenient and (xml_on or XML_A in extra))
         # the error
         hdrs = None
         if rnd.random() < 0.5:
@@ -871,20 +1102,48 @@ def _serialization(ctx):
                 hdrs = list(hdrs.items())
         # a header the response already carries when the error is raised (set by an earlier phase)
         pre_hdr = rnd.choice([None, None, None, ('Vary', 'Origin'), ('X-Pre', 'p1'), ('X-Err', 'pre'), ('Retry-After', '7')])
+        # ... in particular a Vary value that LOOKS like the one the serializer manages: every relative of `Accept` (Accept-Encoding,
+        # Accept-Language, X-Accept-Version, other case, Accept itself, lists), put there by a middleware (process_request), by the code
+        # at the raise site right before raising, or carried by the raised object's own headers; through set_header / resp.vary / append_header
+        vary_pre = None
+        pre_when = 'middleware'
+        if rnd.random() < 0.4:
+            vary_pre = (rnd.choice(VARY_POOL), rnd.choice(['middleware', 'raise_site', 'error']), rnd.choice(['set_header', 'vary', 'append_header']))
+            if vary_pre[1] == 'error' and (kind == 'plain' or site == 'noroute'):
+                vary_pre = (vary_pre[0], 'middleware', vary_pre[2])
+            if vary_pre[1] == 'raise_site' and site == 'noroute':
+                vary_pre = (vary_pre[0], 'middleware', vary_pre[2])
+            if vary_pre[1] == 'error':
+                hdrs = dict(hdrs or {})
+                hdrs = {k: v for k, v in hdrs.items() if k.lower() != 'vary'}
+                hdrs[rnd.choice(['Vary', 'vary', 'VARY'])] = ', '.join(vary_pre[0])
+                if rnd.random() < 0.3:
+                    hdrs = list(hdrs.items())
+            else:
+                pre_hdr = ('Vary', ', '.join(vary_pre[0]))
+                pre_when = vary_pre[1]
+            ctx.count('c_vary_before_' + vary_pre[1] + ('_accept_relative' if any('accept' in m.lower() and m.lower() != 'accept' for m in vary_pre[0]) else
+                                                        '_accept_itself' if any(m.lower() == 'accept' for m in vary_pre[0]) else '_unrelated'))
         status_val = rnd.choice([400, 401, 403, 404, 409, 418, 422, 429, 500, 503, 599, 799, http.HTTPStatus.GONE, '418 I\'m a teapot', '748 Confounded by ponies', falcon.HTTP_412])
         code_int = falcon.code_to_http_status(status_val)
         status_int = int(code_int[:3])
+        if site == 'noroute':
+            status_val, code_int, status_int, hdrs = 404, '404 Not Found', 404, None
         title = rnd.choice([None, _rand_text(rnd, xml_possible)])
         desc = rnd.choice([None, _rand_text(rnd, xml_possible, 30)])
         code = rnd.choice([None, None, 0, 7, -5, 2 ** 40])
         href = rnd.choice([None, None, 'http://example.com/' + _rand_text(rnd, xml_possible), _rand_text(rnd, xml_possible)])
         href_text = rnd.choice([None, _rand_text(rnd, xml_possible)])
+        if site == 'noroute':
+            title = desc = code = href = href_text = None
         st_status = rnd.choice([200, 201, 202, 299, 301, 404, '201 Created', http.HTTPStatus.ACCEPTED])
         st_text = rnd.choice([None, '', _rand_text(rnd, False, 30)])
 
         # the exception OBJECT (see lib_hostileexc): hostile dunder methods / metaclass, unusual ways of raising
         ckind, tkind = _pick_hostile(rnd, 0.5 if kind == 'plain' else 0.12, throw_ok=lambda k: (
             kind == 'plain' if k in ('group', 'group_hostile', 'raised_class_not_instance') else True))
+        if site == 'noroute':
+            ckind = tkind = 'plain'
         hostile = (ckind, tkind) != ('plain', 'plain')
         plain_base = rnd.choice([RuntimeError, KeyError, ZeroDivisionError, UnicodeError, StopIteration, OSError, Exception, LookupError, ArithmeticError])
         Cls = {'http': falcon.HTTPError, 'status': falcon.HTTPStatus, 'plain': plain_base}[kind]
@@ -898,18 +1157,35 @@ def _serialization(ctx):
                 return Cls(st_status, headers=hdrs, text=st_text)
             return Cls('boom')
 
+        def put_pre_hdr(resp):
+            if pre_hdr[0] == 'Vary' and vary_pre and vary_pre[2] == 'vary':
+                resp.vary = list(vary_pre[0])
+            elif pre_hdr[0] == 'Vary' and vary_pre and vary_pre[2] == 'append_header':
+                for m_ in vary_pre[0]:
+                    resp.append_header('Vary', m_)
+            else:
+                resp.set_header(*pre_hdr)
+
         def raiser(resp):
+            if pre_hdr and pre_when == 'raise_site':
+                put_pre_hdr(resp)
             X.throw(tkind, make)
 
         # content the response already carries when the error is raised, possibly already rendered once (an earlier phase called
-        # resp.render_body(), e.g. to log or sign the body): all of it must be discarded
-        stale = rnd.choice([None, None, 'text', 'data', 'media', 'media', 'media+text'])
-        primed = stale is not None and rnd.random() < 0.6
+        # resp.render_body(), e.g. to log or sign the body): all of it must be discarded; or a STREAM (resp.stream / set_stream), alone or
+        # next to text / media: never sent in place of the body the error defines
+        stale = rnd.choice([None, None, None, 'text', 'data', 'media', 'media', 'media+text', 'stream', 'stream', 'stream+text', 'stream+media'])
+        primed = stale is not None and stale != 'stream' and rnd.random() < 0.6
+        stale_stream = (rnd.choice(STREAM_KINDS), rnd.choice(['stream', 'set_stream'])) if stale and 'stream' in stale else None
+        stale_sse = asgi and rnd.random() < 0.12          # a server-sent events emitter (it takes precedence over every other body)
 
         def preset(resp):
-            if pre_hdr:
-                resp.set_header(*pre_hdr)
+            if pre_hdr and pre_when == 'middleware':
+                put_pre_hdr(resp)
+            if stale_sse:
+                _attach_sse(resp)
             if stale:
+                if stale_stream: _attach_stream(resp, asgi, stale_stream[0], stale_stream[1], STALE_STREAM)
                 if 'media' in stale: resp.media = {'STALE': 'media'}
                 if 'text' in stale: resp.text = 'STALE-text'
                 if stale == 'data': resp.data = b'STALE-data'
@@ -918,7 +1194,7 @@ def _serialization(ctx):
                         _render_now(resp)
                     except Exception:  # noqa  (no handler for the default media type in this configuration)
                         pass
-        app = _install(falcon.asgi.App if asgi else falcon.App, asgi, site, raiser, preset)
+        app = _install(falcon.asgi.App if asgi else falcon.App, asgi, 'responder' if site == 'noroute' else site, raiser, preset)
         app.resp_options.xml_error_serialization = xml_on
         mh = app.resp_options.media_handlers
         if drop_json:
@@ -929,25 +1205,37 @@ def _serialization(ctx):
         for e in extra:
             mh[e] = YamlishHandler()
         keys = list(mh)                                  # mapping order, as default_serialize_error iterates it
-        r = _call_obj(app, stack, hostile, via_testing=(ci % 16 == 9), headers={'Accept': accept} if accept is not None else None)
+        req_headers = dict(other_hdrs)
+        if accept is not None:
+            req_headers['Accept'] = accept
+        r = _call_obj(app, stack, hostile, via_testing=(ci % 16 == 9), headers=req_headers or None, path='/no/such/route' if site == 'noroute' else '/')
         case = {'stack': stack, 'site': site, 'kind': kind, 'accept': accept, 'xml_error_serialization': xml_on, 'response_media_handlers': keys,
+                'accept_octets': octets, 'other_request_headers': other_hdrs or None, 'stream_attached_before_the_raise (kind, api)': stale_stream,
+                'sse_emitter_set_before_the_raise': stale_sse,
+                'vary_before_the_error (members, set by, api)': vary_pre,
                 'object_behaviour (lib_hostileexc.build)': ckind, 'raised_how (lib_hostileexc.throw)': tkind, 'base_class': _nm(Cls.__mro__[1] if hostile else Cls),
                 'header_set_before_the_raise': pre_hdr, 'via_testing': ci % 16 == 9, 'body_set_before_the_raise': stale, 'and_rendered_once': primed}
         what = None
+        stale_open_hit = False
         ctx.count('c_stale_' + str(stale) + ('_rendered' if primed else ''))
+        ctx.count('c_site_' + site)
+        if stale_sse:
+            ctx.count('c_stale_sse_emitter_' + kind)
+        sse_what = (f'the server-sent events emitter set before the raise was used for the response instead of the rendering of what was raised: status {r.status}, body {r.body[:80]!r}'
+                    if stale_sse and r.escaped is None and _is_stale_sse(r.body) else None)
         hl = list(hdrs.items()) if isinstance(hdrs, dict) else (hdrs or [])
 
         def headers_kept():
             for k, v in hl:
                 if k.lower() == 'vary':
-                    if v.lower() not in ','.join(r.header('vary')).lower():
+                    if not set(_members([v])) <= set(_members(r.header('vary'))):
                         return f'header Vary: {v!r} of the error is missing ({r.header("vary")})'
                 elif r.header(k) != [v]:
                     return f'header {k}: {v!r} of the error is missing ({r.header(k)})'
             if pre_hdr and pre_hdr[0].lower() not in [k.lower() for k, _ in hl]:
                 k, v = pre_hdr
                 if k.lower() == 'vary':
-                    if v.lower() not in ','.join(r.header('vary')).lower():
+                    if not set(_members([v])) <= set(_members(r.header('vary'))):
                         return f'header Vary: {v!r} set before the raise is missing ({r.header("vary")})'
                 elif r.header(k) != [v]:
                     return f'header {k}: {v!r} set before the raise is missing ({r.header(k)})'
@@ -981,15 +1269,26 @@ def _serialization(ctx):
             j = doc if enc == 'json' else None
             if r.escaped is not None: what = f'exception escaped to the server: {r.escaped!r}'
             elif r.status != 500: what = f'status {r.status} for an unhandled exception'
+            elif not _vary_has_accept(r) and r.body != b'' and r.body != STALE_STREAM: what = f'the 500 body was negotiated but Vary does not list Accept: {r.header("vary")}'
+            elif lenient:
+                if r.body != b'' and not (isinstance(doc, dict) and doc.get('title') == '500 Internal Server Error') and not (stale_stream and r.body == STALE_STREAM):
+                    what = f'body {r.body[:80]!r} is not a rendering of HTTPInternalServerError'
             elif None not in allowed and JSON in allowed and not (isinstance(j, dict) and j.get('title') == '500 Internal Server Error'): what = f'body {r.body[:80]!r} is not the JSON rendering of HTTPInternalServerError'
+            elif None in allowed and r.body != b'' and not (stale_stream and r.body == STALE_STREAM):
+                what = f'body {r.body[:80]!r} although the client accepts nothing that can be produced'
+            if stale_stream and r.body == STALE_STREAM and what is None:
+                stale_open_hit = True
+            what = sse_what or what
             ctx.oracle(name_plain, what is None, what, case)
         elif kind == 'status':
             case.update(status=st_status, text=st_text, headers=hdrs)
             exp_status = int(falcon.code_to_http_status(st_status)[:3])
             if r.escaped is not None: what = f'exception escaped to the server: {r.escaped!r}'
             elif r.status != exp_status: what = f'status {r.status}, expected {exp_status}'
+            elif stale_stream and st_text is None and r.body == STALE_STREAM: stale_open_hit = True
             elif r.body != (st_text or '').encode('utf-8') and not (r.status in (204, 304) or 100 <= r.status < 200): what = f'body {r.body[:80]!r}, expected the text {st_text!r}'
-            else: what = headers_kept()
+            if what is None: what = headers_kept()
+            what = sse_what or what
             ctx.oracle(name_status, what is None, what, case)
         else:
             case.update(status=status_val, title=title, description=desc, code=code, href=href, href_text=href_text, headers=hdrs)
@@ -1003,10 +1302,14 @@ def _serialization(ctx):
             else: what = headers_kept()
             if what is None:
                 if r.body == b'':
-                    if None not in allowed:
+                    if None not in allowed and not lenient:
                         what = f'no body although the client accepts {allowed}'
-                elif mt not in [a for a in allowed if a]:
-                    what = f'body sent as {ctype!r}; by the Accept header the error should be rendered as one of {allowed}'
+                elif stale_stream and r.body == STALE_STREAM and (None in allowed or lenient):
+                    # nothing the client accepts can be produced: the error defines no body; what is sent then is not fixed by the statement
+                    # (both stacks send the stream) - recorded, not judged
+                    stale_open_hit = True
+                elif mt not in ([a for a in allowed if a] if not lenient else offered):
+                    what = f'body sent as {ctype!r}; by the Accept header the error should be rendered as one of {allowed if not lenient else offered}'
                 elif doc is None:
                     what = f'{mt} body does not decode ({enc}): {r.body[:80]!r}'
                 elif enc == 'handler' and mt not in extra:
@@ -1015,9 +1318,12 @@ def _serialization(ctx):
                     what = f'body sent as {mt} is {enc}-encoded: {r.body[:80]!r}'
                 elif dict(doc) != exp:
                     what = f'{mt} body ({enc}) decodes to {doc!r}, the error is {exp!r}'
+            what = sse_what or what
             ctx.oracle(name_http, what is None, what, case)
         # ---- correspondence with the Es model (everything above is independent of it)
-        if r.escaped is None and all(ord(c) < 128 for c in (accept or '')):
+        if stale_open_hit:
+            ctx.count('c_stale_stream_sent_error_defines_no_body_(not_judged)')
+        if r.escaped is None and all(ord(c) < 128 for c in (accept or '')) and not stale_open_hit:
             hs_arg = ','.join(f'{_hx(k)}:1' for k in keys) or '-'
             acc_arg = 'none' if accept is None else _hx(accept)
             rh_arg = f'{_hx(pre_hdr[0].lower())}:{_hx(pre_hdr[1])}' if pre_hdr else '-'     # Response._headers holds lower-cased names
@@ -1092,6 +1398,8 @@ def _direct(ctx):
                    'Application/Vnd.X+JSON', 'a/b+XML', 'text/xml;charset=utf-8', 'application/json;v=1', 'foo', '*', '', 'application/yaml', 'text/plain', '+json',
                    'x+xml', '*/json', 'APPLICATION/JSON', 'multipart/*', 'application/problem+JSON', 'APPLICATION/ATOM+XML', 'application/vnd.acme+Json',
                    'Image/Svg+Xml', 'application/vnd.acme.thing.v2+json', 'TEXT/*', 'Application/*', 'TEXT/XML', 'application/XML']
+    # header octets (obs-text): see NONASCII_MEMBERS; about one header in eight carries some
+    octet_pool = NONASCII_MEMBERS + NONASCII_LENIENT
     q_pool = [None, None, None, '0', '0.1', '0.5', '0.9', '1', '1.0', '0.000', 'abc', '2', '-1', '0.33', ' 0.7', '.5']
     for ci in range(ctx.n(16000, 200000)):
         asgi = rnd.random() < 0.5
@@ -1107,8 +1415,9 @@ def _direct(ctx):
             accept = None
         else:
             parts = []
-            for mt in [rnd.choice(ranges_pool) for _ in range(rnd.randint(1, 4))]:
-                q = rnd.choice(q_pool)
+            with_octets = rnd.random() < 0.12
+            for mt in [rnd.choice(octet_pool if with_octets and rnd.random() < 0.6 else ranges_pool) for _ in range(rnd.randint(1, 4))]:
+                q = rnd.choice(q_pool) if ';' not in mt or mt in ranges_pool else None
                 parts.append(mt if q is None else f'{mt}{rnd.choice([";", "; ", " ;"])}{rnd.choice(["q", "q", "Q"])}={q}')
             accept = rnd.choice([',', ', ']).join(parts).strip() or 'x'     # (servers and the test helpers strip the field value)
         opts = ResponseOptions()
@@ -1121,7 +1430,19 @@ def _direct(ctx):
         else:
             req = falcon.Request(ft.create_environ(headers=hd))
             resp = falcon.Response(options=opts)
-        case = {'stack': 'asgi' if asgi else 'wsgi', 'accept': accept, 'xml_error_serialization': xml_on, 'media_handlers (key, truthy)': hs}
+        # the Vary value the response already carries (every relative of `Accept`, see VARY_POOL)
+        vary0 = rnd.choice(VARY_POOL) if rnd.random() < 0.3 else None
+        if vary0:
+            if rnd.random() < 0.5:
+                resp.vary = list(vary0)
+            else:
+                resp.set_header('Vary', ', '.join(vary0))
+            ctx.count('d_vary_before_' + ('accept_relative' if any('accept' in m.lower() and m.lower() != 'accept' for m in vary0) else
+                                          'accept_itself' if any(m.lower() == 'accept' for m in vary0) else 'unrelated'))
+        ascii_accept = all(ord(c) < 128 for c in (accept or ''))
+        if not ascii_accept:
+            ctx.count('d_accept_with_octets_' + ('asgi' if asgi else 'wsgi'))
+        case = {'stack': 'asgi' if asgi else 'wsgi', 'accept': accept, 'xml_error_serialization': xml_on, 'media_handlers (key, truthy)': hs, 'vary_before': vary0}
         what = None
         try:
             default_serialize_error(req, resp, Stub())
@@ -1133,8 +1454,8 @@ def _direct(ctx):
             else: got = 'none'
             vary = resp.get_header('vary')
             # ---- oracle, from the statement (simple RFC 7231 reading; only when header and keys carry no parameters other than q)
-            if vary != 'Accept':
-                what = f'Vary is {vary!r} after the default serializer'
+            if 'accept' not in _members([vary or '']) or not set(_members(vary0 or [])) <= set(_members([vary or ''])) or (vary0 is None and vary != 'Accept'):
+                what = f'Vary is {vary!r} after the default serializer (before: {vary0}): Accept must be a member, next to the names listed before'
             elif ct in (FORM, MULTI):
                 what = f'the error is labelled {ct}, a request-only form type'
             elif ct is None and (resp.data is not None or resp.media is not None):
@@ -1174,8 +1495,9 @@ def _direct(ctx):
             got = 'raised ' + type(e).__name__
             what = f'default_serialize_error raised {e!r}'
         ctx.oracle(name_neg, what is None, what, case)
-        sess.case(case)
-        sess.op(f'choose {int(xml_on)} {",".join(_hx(k) + ":" + str(t) for k, t in hs) or "-"} {"none" if accept is None else _hx(accept)}', got)
+        if ascii_accept:                                  # (the negotiation model is restricted to ASCII headers)
+            sess.case(case)
+            sess.op(f'choose {int(xml_on)} {",".join(_hx(k) + ":" + str(t) for k, t in hs) or "-"} {"none" if accept is None else _hx(accept)}', got)
         ctx.seen(('d', asgi, xml_on, tuple(hs), accept), True)
         ctx.count('d_choice_' + got.split(' ')[0])
         if ci % 4:
@@ -1200,8 +1522,9 @@ def _direct(ctx):
         hn = ['X-Err', 'x-err', 'X-ERR', 'Retry-After', 'Vary', 'vary', 'Content-Type', 'content-type', 'X-Other']
         if rnd.random() < 0.06:
             hn = hn + ['Set-Cookie', 'SET-COOKIE'] * 3
-        pre = [(rnd.choice(hn[:9]), rnd.choice(['p1', 'Origin', 'text/plain'])) for _ in range(rnd.randint(0, 3))]
-        eh = rnd.choice([None, [(rnd.choice(hn), rnd.choice(['e1', 'e2', 'Cookie', 'text/css'])) for _ in range(rnd.randint(0, 4))]])
+        vv = [', '.join(m) for m in VARY_POOL]
+        pre = [(k_, rnd.choice(vv if k_.lower() == 'vary' and rnd.random() < 0.7 else ['p1', 'Origin', 'text/plain'])) for k_ in (rnd.choice(hn[:9]) for _ in range(rnd.randint(0, 3)))]
+        eh = rnd.choice([None, [(k_, rnd.choice(vv if k_.lower() == 'vary' and rnd.random() < 0.7 else ['e1', 'e2', 'Cookie', 'text/css'])) for k_ in (rnd.choice(hn) for _ in range(rnd.randint(0, 4)))]])
         eh_obj = eh if (eh is None or rnd.random() < 0.5 or len({k for k, _ in eh}) != len(eh)) else dict(eh)
         app = (falcon.asgi.App if asgi else falcon.App)()
         app.resp_options.xml_error_serialization = xml_on
@@ -1251,14 +1574,18 @@ def _direct(ctx):
             obs = 'header-not-supported'
             if not any(k.lower() == 'set-cookie' for k, _ in (eh or [])):
                 what = 'HeaderNotSupported without a Set-Cookie item'
+        except Exception as e:  # noqa
+            obs = 'raised ' + type(e).__name__
+            what = f'composing the response raised {e!r}'
         ctx.oracle(name_comp, what is None, what, case3)
-        sess.case(case3)
+        if is_status or ascii_accept:
+            sess.case(case3)
         rh_arg = ','.join(f'{_hx(k)}:{_hx(v)}' for k, v in before.items()) or '-'
         eh_arg = 'none' if eh is None else (','.join(f'{_hx(k)}:{_hx(v)}' for k, v in eh) or '-')
         hs_arg = ','.join(_hx(k) + ':' + str(t) for k, t in hs) or '-'
         if is_status:
             sess.op(f'cstatus 299 {rh_arg} {eh_arg} {_flag(st_text)}', obs)
-        else:
+        elif ascii_accept:
             sess.op(f'cerror {int(xml_on)} {hs_arg} {"none" if accept is None else _hx(accept)} {int(line[:3])} {rh_arg} {eh_arg}', obs)
         ctx.count('d_compose_' + obs.split(' ')[0].split('=')[0])
     sess.finish()
@@ -1270,8 +1597,8 @@ LEVEL_TEXT = ('Machine-checked proofs (Lean 4) about transcriptions of add_error
               'the handler is rendered in turn; with the default registrations an Exception-derived error yields 500 and does not escape; for every configuration and Accept header JSON is chosen '
               'whenever no offered type has a higher quality, XML only if strictly preferred (or by the +xml suffix) and enabled, the request-only form types never, nothing iff the client accepts '
               'none of the offered types and no suffix heuristic fires; Vary: Accept is always appended after the error\'s own headers; the error document has exactly the fields that are set; '
-              'status and headers of the HTTPError/HTTPStatus are kept. The models are tied to falcon/app.py, falcon/asgi/app.py, falcon/app_helpers.py and falcon/http_error.py on every run by '
-              'differential correspondences (the real app, WSGI and ASGI, every raise site incl. body rendering, raised objects with hostile dunder methods / metaclasses / cause chains, Accept headers in any letter case, and the modelled functions called directly on exotic configurations, against the '
+              'status and headers of the HTTPError/HTTPStatus are kept; a body defined by the handler is sent whatever stream was attached before the raise. The models are tied to falcon/app.py, falcon/asgi/app.py, falcon/app_helpers.py and falcon/http_error.py on every run by '
+              'differential correspondences (the real app, WSGI and ASGI, every raise site incl. body rendering, raised objects with hostile dunder methods / metaclasses / cause chains, Accept headers in any letter case and with non-ASCII octets, responses that already carry Accept-like Vary values or a stream, and the modelled functions called directly on exotic configurations, against the '
               'compiled models) and independent oracles written from the statement decide failing inputs, including the faithfulness of the default JSON/XML error bodies over arbitrary Unicode.')
 LEVEL_NOTE = ('Trusted: Lean kernel + standard axioms; the correspondence harness and oracles; json/ElementTree decoders. Encoder faithfulness (json.dumps, ElementTree, media handlers, uri.encode) '
               'is oracle-checked, not proved; the negotiation model covers ASCII Accept headers with plain decimal q values.')
